@@ -576,7 +576,87 @@ impl C11 {
         }
     }
 
+    /// tier B: a clean close at sampled offsets before the end of the attributes, under three framings, for the client
+    /// of this case (the async client has no in-memory transport, so this is its fault-enumeration tier)
+    fn tcp_cut_sweep(&self, case: &Case, rep: &mut RunReport) {
+        let base = &case.scripts[0];
+        let mut sends = 0u64;
+        for framing in [Framing::ContentLength, Framing::Chunked(vec![7]), Framing::CloseDelimited] {
+            let mut s0 = base.clone();
+            s0.status = 200;
+            s0.framing = framing.clone();
+            s0.reset_request_after = None;
+            s0.fault = None;
+            s0.drip_ms = 0;
+            let head_len = s0.render().head_len as u32;
+            let mut points: Vec<FaultAt> = (0..head_len).map(FaultAt::Head).chain((0..s0.ipp.len() as u32).map(FaultAt::Body)).collect();
+            if points.len() > 120 {
+                let step = (points.len() - 40) / 80 + 1;
+                let n = points.len();
+                points = points.iter().enumerate().filter(|(i, _)| *i < 20 || *i + 20 >= n || (*i - 20) % step == 0).map(|(_, p)| *p).collect();
+            }
+            for at in points {
+                let mut s = s0.clone();
+                s.fault = Some(RespFault { at, kind: RespFaultKind::Cut });
+                let mut scripts = BTreeMap::new();
+                scripts.insert(1u32, s.clone());
+                let Ok(printer) = TcpPrinter::start(scripts, 1) else {
+                    rep.count("tierB.harness_bind_failures", 1);
+                    return;
+                };
+                let port = printer.port;
+                let core = SimCore::new();
+                let (req, _exp, _src) = Self::build_request(&case.senders[0], 1, &core, case.client == ClientKind::Async);
+                let res = match case.client {
+                    ClientKind::Blocking => {
+                        let client = Self::client_blocking(&case.cfg, port);
+                        Self::finish_blocking(guarded(|| client.send(req)))
+                    }
+                    ClientKind::Async => {
+                        let client = Self::client_async(&case.cfg, port);
+                        let rt = tokio::runtime::Builder::new_current_thread().enable_all().build().expect("tokio runtime");
+                        match guarded(|| {
+                            rt.block_on(async {
+                                match client.send(req).await {
+                                    Err(e) => SendResult::Err(e.to_string()),
+                                    Ok(mut resp) => {
+                                        let parsed = canon(resp.header(), resp.attributes());
+                                        let payload = crate::drive::drain_async(resp.payload_mut(), &[], 1 << 24).await;
+                                        SendResult::Ok { parsed, payload }
+                                    }
+                                }
+                            })
+                        }) {
+                            Ok(r) => r,
+                            Err(p) => SendResult::Panic(p),
+                        }
+                    }
+                };
+                let _ = printer.stop();
+                sends += 1;
+                if !matches!(res, SendResult::Err(_)) {
+                    let class = if matches!(res, SendResult::Panic(_)) { "client-panicked" } else { "cut-response-accepted" };
+                    rep.violate(class, format!("cut sweep over TCP ({:?} client): response closed at {at:?} under framing {framing:?} (before the end of the attributes), yet send returned {}", case.client, res.short()));
+                    let mut single = case.clone();
+                    single.cut_sweep = false;
+                    single.scripts[0] = s;
+                    rep.reduced = serde_json::to_value(&single).ok();
+                    rep.count("tierB.cut_sweep_sends", sends);
+                    return;
+                }
+            }
+        }
+        rep.count("tierB.cut_sweeps_completed", 1);
+        rep.count("tierB.cut_sweep_sends", sends);
+    }
+
     fn run_tcp(&self, case: &Case, record: bool, rep: &mut RunReport) {
+        if case.cut_sweep && case.senders.len() == 1 {
+            self.tcp_cut_sweep(case, rep);
+            if rep.violation.is_some() {
+                return;
+            }
+        }
         let n = case.senders.len();
         let scripts: BTreeMap<u32, Script> = case.scripts.iter().enumerate().map(|(i, s)| (i as u32 + 1, s.clone())).collect();
         let printer = match TcpPrinter::start(scripts, n) {
@@ -720,8 +800,8 @@ impl Prop for C11 {
     }
 
     fn gen(&self, rng: &mut Rng, tier: Tier, run: u64) -> Case {
-        // every 8th run is a tier-B run (real sockets, slower); the rest are tier A
-        let transport = if run % 8 == 7 { Transport::Tcp } else { Transport::Mem };
+        // every 4th run is a tier-B run (real sockets, slower); the rest are tier A
+        let transport = if run % 4 == 3 { Transport::Tcp } else { Transport::Mem };
         let client = if transport == Transport::Tcp && rng.chance(1, 2) { ClientKind::Async } else { ClientKind::Blocking };
         let mut cfg = gen_cfg(rng, transport);
         let n = if rng.chance(1, 6) { rng.usize(2, 6) } else { 1 };
@@ -754,7 +834,7 @@ impl Prop for C11 {
             // must be unaffected and still get their own response (isolation)
         }
         // tier B only: a stalled printer together with a client timeout (the one clock-dependent clause)
-        if transport == Transport::Tcp && n == 1 && rng.chance(1, 12) {
+        if transport == Transport::Tcp && n == 1 && rng.chance(1, 36) {
             cfg.timeout_ms = Some(rng.range(150, 400) as u32);
             let s = &mut scripts[0];
             s.status = 200;
@@ -766,7 +846,7 @@ impl Prop for C11 {
                 _ => FaultAt::Body(rng.below(s.ipp.len() as u64) as u32),
             };
             s.fault = Some(RespFault { at, kind: RespFaultKind::Stall });
-        } else if transport == Transport::Tcp && n == 1 && rng.chance(1, 11) {
+        } else if transport == Transport::Tcp && n == 1 && rng.chance(1, 35) {
             // a slow, never silent printer: every gap is shorter than the timeout, the whole answer takes ~4x the timeout
             let t = rng.range(200, 300) as u32;
             cfg.timeout_ms = Some(t);
@@ -785,7 +865,7 @@ impl Prop for C11 {
         let nw = rng.usize(0, 4);
         let write_sched = (0..nw).map(|_| *rng.pick(&[1u32, 2, 7, 64, 1000, 100_000])).collect();
         let baton = (0..rng.usize(0, 64)).map(|_| rng.byte()).collect();
-        let cut_sweep = transport == Transport::Mem && n == 1 && rng.chance(1, 100);
+        let cut_sweep = n == 1 && if transport == Transport::Mem { rng.chance(1, 100) } else { cfg.timeout_ms.map(|t| t >= 30_000).unwrap_or(true) && rng.chance(1, 60) };
         Case { transport, client, cfg, senders, scripts, write_sched, baton, cut_sweep }
     }
 
@@ -889,7 +969,7 @@ impl Prop for C11 {
     }
 
     fn rule(&self) -> String {
-        "Tier A (7 of 8 runs): the real IppClient::send (ureq agent, header loop, streaming chunked body, IppParser on the response reader) over an in-memory transport installed through the cfg(ipp_verif) hook; every transport read/write is scripted: short writes, response segmentation, framing (content-length / chunked with seeded chunk sizes / close-delimited), status (200 or 18 4xx/5xx codes), one fault (cut, I/O error kind or read time-out at an offset classified as HTTP head / IPP header / attributes / trailing data; or reset while the request is being written); request payload from a fragmented source with EINTR / not-ready results — a blocking Read or an AsyncRead, in a quarter of the runs the kind that does NOT match the client (both payload bridges under both clients); custom headers are private x- names or registered request headers (content-language, content-disposition, accept-language, cookie, ...) other than the ones the clients set themselves; 1 of 100 single-sender runs additionally cuts the response at EVERY offset before the end of the attributes under each framing ('cut_sweep_sends'); 1 of 6 runs has 2-6 concurrent senders through one shared client under the seeded baton scheduler (one thread runs at a time, every transport call is a yield point); in tier A each of them has its own script, so some may meet an error status or a failing connection while the others must still get their own complete response. Tier B (every 8th run): IppClient and AsyncIppClient against the same scripted printer over real loopback TCP, plus the two request_timeout clauses: a stalled printer, and a printer that drips its answer with gaps shorter than the timeout but a total of ~4x the timeout. Oracles: exactly one POST per send to path+query with Host, content-type, every custom header, Basic credentials; de-chunked body == to_bytes() of the sent instance ++ payload; 2xx + complete => Ok equal to the unfragmented parse of the scripted IPP bytes and identical trailing data; 4xx/5xx, failure before the end of the attributes, reset during the request, or stall / slow drip beyond the timeout => Err; failure inside trailing data => attributes equal and trailing data a prefix; each concurrent sender gets the response carrying its own token. distinct_nontrivial = distinct hashes of the transport call sequence (+ baton order) [tier A] or of (configuration, scripts, outcome classes) [tier B] among runs with a payload, a fault, an error status or several senders."
+        "Tier A (3 of 4 runs): the real IppClient::send (ureq agent, header loop, streaming chunked body, IppParser on the response reader) over an in-memory transport installed through the cfg(ipp_verif) hook; every transport read/write is scripted: short writes, response segmentation, framing (content-length / chunked with seeded chunk sizes / close-delimited), status (200 or 18 4xx/5xx codes), one fault (cut, I/O error kind or read time-out at an offset classified as HTTP head / IPP header / attributes / trailing data; or reset while the request is being written); request payload from a fragmented source with EINTR / not-ready results — a blocking Read or an AsyncRead, in a quarter of the runs the kind that does NOT match the client (both payload bridges under both clients); custom headers are private x- names or registered request headers (content-language, content-disposition, accept-language, cookie, ...) other than the ones the clients set themselves; 1 of 100 single-sender runs additionally cuts the response at EVERY offset before the end of the attributes under each framing ('cut_sweep_sends'); 1 of 6 runs has 2-6 concurrent senders through one shared client under the seeded baton scheduler (one thread runs at a time, every transport call is a yield point); in tier A each of them has its own script, so some may meet an error status or a failing connection while the others must still get their own complete response. Tier B (every 4th run): IppClient and AsyncIppClient against the same scripted printer over real loopback TCP, plus, in 1 of 60 single-sender runs, a sweep of clean closes at ~100 sampled offsets before the end of the attributes under three framings ('tierB.cut_sweep_sends'), and the two request_timeout clauses: a stalled printer, and a printer that drips its answer with gaps shorter than the timeout but a total of ~4x the timeout. Oracles: exactly one POST per send to path+query with Host, content-type, every custom header, Basic credentials; de-chunked body == to_bytes() of the sent instance ++ payload; 2xx + complete => Ok equal to the unfragmented parse of the scripted IPP bytes and identical trailing data; 4xx/5xx, failure before the end of the attributes, reset during the request, or stall / slow drip beyond the timeout => Err; failure inside trailing data => attributes equal and trailing data a prefix; each concurrent sender gets the response carrying its own token. distinct_nontrivial = distinct hashes of the transport call sequence (+ baton order) [tier A] or of (configuration, scripts, outcome classes) [tier B] among runs with a payload, a fault, an error status or several senders."
             .into()
     }
     fn assumptions(&self) -> Vec<String> {
